@@ -141,12 +141,14 @@ theorem C08_tlv_consumes (d : Bytes) (t : CfdpTlv) (h : CfdpTlv.unpack d = .ok t
   obtain ⟨h0, h1, h2, h3⟩ := CfdpTlv.unpack_spec d t h
   exact ⟨h0, h1, by simp [CfdpTlv.packetLen]; omega, h2, h3⟩
 
-/-- **values longer than 255 octets are refused** -/
+/-- **values longer than 255 octets are refused** with `ValueError`, by the constructor and — for an
+    object built around the constructor — by `pack` (nothing is truncated) -/
 theorem C08_tlv_refuse_long (t : Nat) (v : Bytes) (h : 255 < v.length) :
-    CfdpTlv.new t v = .error .value ∧ (CfdpTlv.mk t v).pack ≠ .ok (Spec.tlv t v) := by
-  refine ⟨CfdpTlv.new_err h, fun hp => ?_⟩
-  have := (CfdpTlv.pack_ok _ _ hp).2.1
-  simp only at this; omega
+    CfdpTlv.new t v = .error .value ∧ (CfdpTlv.mk t v).pack = .error .value := by
+  refine ⟨CfdpTlv.new_err h, ?_⟩
+  have hv : ¬ v.length < 256 := by omega
+  unfold CfdpTlv.pack
+  by_cases ht : t < 256 <;> simp [ht, hv, byteOfN, bind, Except.bind]
 
 theorem C08_tlv_len (t : CfdpTlv) (b : Bytes) (h : t.pack = .ok b) : b.length = t.packetLen :=
   CfdpTlv.pack_length t b h
@@ -405,9 +407,9 @@ theorem C08_fs_response_len_exact (d : Bytes) (x : FileStoreResponseTlv)
     refine ⟨t.value, h1, by rw [hx]; simp [CfdpTlv.packetLen]; omega, by rw [hx]; exact h2, ?_⟩
     rw [hx, ← hty]; exact h3
 
-/-- **octets after the encoded names (and message LV) inside the value field are refused** with
-    `ValueError`, for every otherwise valid request / response and every non-empty slack that still
-    fits the TLV -/
+/-- **octets after the encoded names inside the value field of a REQUEST are refused** with
+    `ValueError`, for every otherwise valid request and every non-empty slack that still fits the TLV
+    (responses: `C08_fs_response_refuse_slack`) -/
 theorem C08_fs_refuse_slack (r : FileStoreRequestTlv) (wf : WFReq r) (tail rest : Bytes) (ht : tail ≠ [])
     (hl : (Spec.fsValue (r.action * 16) r.action r.first r.second ++ tail).length ≤ 255) :
     FileStoreRequestTlv.unpack
@@ -446,8 +448,9 @@ theorem C08_packet_len (a : AnyTlv) (b : Bytes) (h : a.pack = .ok b) : b.length 
   | fsRequest t => exact FileStoreRequestTlv.pack_length t b h
   | fsResponse t => exact FileStoreResponseTlv.pack_length t b h
 
-/-- names or messages that do not fit are refused with `ValueError`, never encoded:
-    a name of more than 255 octets, or a value field of more than 255 octets -/
+/-- REQUEST names that do not fit are refused with `ValueError`, never encoded:
+    a name of more than 255 octets, or a value field of more than 255 octets
+    (responses, with their filestore message: `C08_fs_response_refuse_long`) -/
 theorem C08_fs_refuse_long (r : FileStoreRequestTlv) (ha : r.action ∈ actionCodes)
     (h : 255 < (Spec.fsValue (r.action * 16) r.action r.first r.second).length) :
     r.pack = .error .value := by
@@ -470,6 +473,80 @@ theorem C08_fs_refuse_long (r : FileStoreRequestTlv) (ha : r.action ∈ actionCo
   · unfold commonPacker
     rw [shl4_or _ _ (by omega), byteOfN_ok (by omega), bind_ok, CfdpLv.new_err (by omega)]
     rfl
+
+/-- … and the same for **responses**: octets after the filestore-message LV inside the value field
+    are refused with `ValueError`, for every otherwise valid response and every non-empty slack that
+    still fits the TLV -/
+theorem C08_fs_response_refuse_slack (r : FileStoreResponseTlv) (wf : WFResp r) (tail rest : Bytes) (ht : tail ≠ [])
+    (hl : (Spec.fsValue r.status.toNat r.action r.first r.second ++ Spec.lv r.msg.value ++ tail).length ≤ 255) :
+    FileStoreResponseTlv.unpack
+      (Spec.tlv 1 (Spec.fsValue r.status.toNat r.action r.first r.second ++ Spec.lv r.msg.value ++ tail) ++ rest) =
+      .error .value := by
+  obtain ⟨ha, h0, hmem, hdiv, u1, u2, hsec, _⟩ := wf
+  obtain ⟨e1, _⟩ := status_split r.status r.action h0 hdiv
+  rw [e1, spec_fsValue] at hl ⊢
+  have hfl := fsValue_length r.action (statusToInt r.status) r.first r.second
+  simp only [Spec.lv, List.length_append, List.length_cons] at hl
+  have h1 : r.first.length ≤ 255 := by omega
+  have hm : r.msg.value.length ≤ 255 := by omega
+  have h2 : r.second.length ≤ 255 := by
+    by_cases h : r.action ∈ snpActions
+    · simp only [h, ↓reduceIte] at hfl; omega
+    · rw [hsec fun x => h ((twoNames_iff _).1 x)]; simp
+  have hv : fsValue r.action (statusToInt r.status) r.first r.second ++ Spec.lv r.msg.value ++ tail
+      = fsValue r.action (statusToInt r.status) r.first r.second ++ (u8 r.msg.value.length :: (r.msg.value ++ tail)) := by
+    simp [Spec.lv]
+  rw [hv]
+  have hl2 : (fsValue r.action (statusToInt r.status) r.first r.second ++
+      (u8 r.msg.value.length :: (r.msg.value ++ tail))).length ≤ 255 := by
+    simp only [List.length_append, List.length_cons]; omega
+  unfold Spec.tlv
+  rw [FileStoreResponseTlv.unpack_bind]
+  simp only [List.cons_append]
+  rw [CfdpTlv.unpack_pack_append 1 _ rest (by decide) hl2, bind_ok]
+  exact FileStoreResponseTlv.fromTlv_slack r.action (statusToInt r.status) r.first r.second r.msg.value tail ha
+    (statusToInt_lt _) (by rw [← e1]; exact hmem) h1 h2 hm u1 u2 ht
+
+private theorem commonPacker_long (action status : Nat) (first second : Bytes) (ha : action < 16) (hs : status < 16)
+    (h : 255 < first.length ∨ (action ∈ snpActions ∧ 255 < second.length)) :
+    commonPacker action first second status = .error .value := by
+  unfold commonPacker
+  by_cases h1 : first.length ≤ 255
+  · have hsn : action ∈ snpActions ∧ 255 < second.length := by
+      rcases h with h | h
+      · omega
+      · exact h
+    rw [shl4_or _ _ hs, byteOfN_ok (by omega), bind_ok, CfdpLv.new_ok h1, bind_ok, CfdpLv.pack_eq _ h1, bind_ok]
+    simp only [hsn.1, ↓reduceIte, CfdpLv.new_err hsn.2]
+    rfl
+  · rw [shl4_or _ _ hs, byteOfN_ok (by omega), bind_ok, CfdpLv.new_err (by omega)]
+    rfl
+
+/-- … and **responses** whose names or filestore message do not fit are refused with `ValueError`,
+    never encoded: a name or message of more than 255 octets, or a value field (names and message
+    LV together) of more than 255 octets — whatever the status code -/
+theorem C08_fs_response_refuse_long (r : FileStoreResponseTlv) (ha : r.action ∈ actionCodes)
+    (h : 255 < (Spec.fsValue r.status.toNat r.action r.first r.second ++ Spec.lv r.msg.value).length) :
+    r.pack = .error .value := by
+  have ha8 := (mem_actionCodes r.action).1 ha
+  have hlen : (Spec.fsValue r.status.toNat r.action r.first r.second).length
+      = (fsValue r.action (statusToInt r.status) r.first r.second).length := by
+    rw [← spec_fsValue]; simp [Spec.fsValue]
+  simp only [List.length_append, hlen, Spec.lv, List.length_cons] at h
+  have hfl := fsValue_length r.action (statusToInt r.status) r.first r.second
+  unfold FileStoreResponseTlv.pack FileStoreResponseTlv.buildTlv
+  by_cases hc : 255 < r.first.length ∨ (r.action ∈ snpActions ∧ 255 < r.second.length)
+  · rw [commonPacker_long _ _ _ _ (by omega) (statusToInt_lt _) hc]; rfl
+  · have h1 : r.first.length ≤ 255 := by omega
+    have h2 : r.action ∈ snpActions → r.second.length ≤ 255 := by
+      intro hs
+      have : ¬ 255 < r.second.length := fun x => hc (.inr ⟨hs, x⟩)
+      omega
+    rw [commonPacker_eq _ _ _ _ (by omega) (statusToInt_lt _) h1 h2, bind_ok]
+    by_cases hm : r.msg.value.length ≤ 255
+    · rw [CfdpLv.pack_eq _ hm, bind_ok, CfdpTlv.new_err (by simp only [List.length_append, List.length_cons]; omega)]
+      rfl
+    · rw [CfdpLv.pack_err _ (by omega)]; rfl
 
 /-! ## type safety -/
 
@@ -598,23 +675,35 @@ theorem C08_type_safe_holder (a : AnyTlv) :
     have := C08_type_safe_from_tlv t
     simp_all
 
-/-- the holder verdicts for a held object whose type is *not* the requested one, class by class -/
+/-- the error a `TlvHolder.to_*` conversion raises for a held object of a foreign type, determined
+    by the KIND of the held object: a generic `CfdpTlv` goes through `from_tlv` and is refused with
+    `TlvTypeMissmatch`; an object of another concrete class is refused with `TypeError` -/
+def foreignErr : AnyTlv → Err
+  | .generic _ => .tlvType
+  | _ => .type
+
+/-- the holder verdicts for a held object whose type is *not* the requested one, class by class,
+    with the exact class of the error (`foreignErr`): `TlvTypeMissmatch` for a held generic TLV,
+    `TypeError` for a held object of another concrete class -/
 theorem C08_type_safe_holder_foreign (a : AnyTlv) :
-    (a.tlvType ≠ tEntityId → holderToEntityId a = .error .tlvType ∨ holderToEntityId a = .error .type) ∧
-    (a.tlvType ≠ tFlowLabel → holderToFlowLabel a = .error .tlvType ∨ holderToFlowLabel a = .error .type) ∧
-    (a.tlvType ≠ tMsgToUser → holderToMsgToUser a = .error .tlvType ∨ holderToMsgToUser a = .error .type) ∧
-    (a.tlvType ≠ tFaultHandler →
-      holderToFaultHandler a = .error .tlvType ∨ holderToFaultHandler a = .error .type) ∧
-    (a.tlvType ≠ tFsRequest → holderToFsRequest a = .error .tlvType ∨ holderToFsRequest a = .error .type) ∧
-    (a.tlvType ≠ tFsResponse → holderToFsResponse a = .error .tlvType ∨ holderToFsResponse a = .error .type) := by
+    (a.tlvType ≠ tEntityId → holderToEntityId a = .error (foreignErr a)) ∧
+    (a.tlvType ≠ tFlowLabel → holderToFlowLabel a = .error (foreignErr a)) ∧
+    (a.tlvType ≠ tMsgToUser → holderToMsgToUser a = .error (foreignErr a)) ∧
+    (a.tlvType ≠ tFaultHandler → holderToFaultHandler a = .error (foreignErr a)) ∧
+    (a.tlvType ≠ tFsRequest → holderToFsRequest a = .error (foreignErr a)) ∧
+    (a.tlvType ≠ tFsResponse → holderToFsResponse a = .error (foreignErr a)) := by
   refine ⟨fun h => ?_, fun h => ?_, fun h => ?_, fun h => ?_, fun h => ?_, fun h => ?_⟩ <;>
     cases a <;> simp only [holderToEntityId, holderToFlowLabel, holderToMsgToUser, holderToFaultHandler,
-      holderToFsRequest, holderToFsResponse, AnyTlv.tlvType, or_true, ne_eq,
+      holderToFsRequest, holderToFsResponse, AnyTlv.tlvType, foreignErr, ne_eq,
       not_true_eq_false] at h ⊢
   all_goals
     rename_i t
     have := C08_type_safe_from_tlv t
     simp_all
+
+example : foreignErr (.generic ⟨5, [1]⟩) = .tlvType ∧ foreignErr (.flowLabel ⟨⟨5, [1]⟩⟩) = .type ∧
+    holderToEntityId (.generic ⟨5, [1]⟩) = .error .tlvType ∧ holderToEntityId (.flowLabel ⟨⟨5, [1]⟩⟩) = .error .type := by
+  decide
 
 -- the (class, foreign type) table on concrete octets: every TLV type through every other class
 example : ∀ t ∈ tlvTypes, t ≠ 6 → EntityIdTlv.unpack [u8 t, 1, 7] = .error .tlvType := by decide
